@@ -3,7 +3,7 @@
 From Coq Require Import List NArith ZArith Bool Lia.
 From ApiFu Require Import Base.Sexp TimeConn.TimeModel TimeConn.TimeSpec TimeConn.TimeProofs
   TimeConn.TimeErrModel TimeConn.TimeErrProofs TimeConn.TimeCursorCodec TimeConn.TimeCursorCodecProofs
-  TimeConn.GoTimeModel TimeConn.GoTimeProofs TimeConn.DateTimeModel TimeConn.TimeCostProofs.
+  TimeConn.GoTimeModel TimeConn.GoTimeProofs TimeConn.DateTimeModel TimeConn.TimeCostProofs TimeConn.TimeVerdictProofs.
 From ApiFu Require Cost.CostModel.
 Import ListNotations.
 Open Scope Z_scope.
@@ -214,3 +214,15 @@ Example non_slice_answers :
       fst (fst (xconn current true (g_exact E20) ps s_both (TCVal 6) a_three)) = XFieldError [ENonSlice])
   /\ no_bad (fun _ => px true NoErr).
 Proof. split; [vm_compute; reflexivity|]. split; [vm_compute; reflexivity|]. intros j. discriminate. Qed.
+
+(** the verdict: a promised non-slice value (call 0) loses against a later failing promise (call 1),
+    a synchronous non-slice value (call 2) beats both and is found before anything else *)
+Example verdict_priorities :
+  verdict (fun i => match i with O => px true BadValue | 1%nat => px true (Err 1) | _ => px false NoErr end)
+          (queries_of a_three) = Some (SErr 1, 3%nat)
+  /\ verdict (fun i => match i with O => px true BadValue | 1%nat => px true (Err 1) | _ => px false BadValue end)
+             (queries_of a_three) = Some (SNonSlice, 3%nat)
+  /\ verdict (fun i => match i with O => px true BadValue | _ => px false TypedNilErr end)
+             (queries_of a_three) = Some (SNonSlice, 3%nat)
+  /\ verdict (fun _ => px true TypedNilErr) (queries_of a_three) = None.
+Proof. vm_compute. repeat split. Qed.
